@@ -106,6 +106,23 @@ Proof.
   exact (H cs []).
 Qed.
 
+Lemma filter_all_true : forall (g : Z -> bool) cs, (forall x, In x cs -> g x = true) -> filter g cs = cs.
+Proof.
+  intros g. induction cs as [|x t IH]; intros H; cbn [filter]; [reflexivity|].
+  rewrite (H x (or_introl eq_refl)). f_equal. apply IH. intros y Hy. apply H. right. exact Hy.
+Qed.
+
+(* the predicate of callee_forwarded_regs (either body) accepts every name the validity set lists *)
+Lemma fwd_pred_memb : forall a n l, memb n l = true ->
+  (if a_fwd_alias a then reg_valid a n (VSome l) else memb n l) = true.
+Proof.
+  intros a n l H. destruct (a_fwd_alias a); [|exact H].
+  unfold reg_valid, alias_group. cbn [existsb]. rewrite H. reflexivity.
+Qed.
+
+Lemma In_memb : forall x l, In x l -> memb x l = true.
+Proof. intros x l H. unfold memb. apply existsb_exists. exists x. split; [exact H|apply Z.eqb_refl]. Qed.
+
 Lemma strip_small : forall a mma x, 0 <= x < 2 ^ 47 -> strip a mma x = x.
 Proof.
   intros a mma x Hx. unfold strip. destruct (a_strip a); [|reflexivity].
@@ -235,7 +252,8 @@ Proof.
       pose proof (lookup_skip done (f :: t) 0 Hgd) as L. cbn [Z.add] in L. rewrite L. cbn [cfi_lookup].
       rewrite Z.eqb_refl. rewrite Hfp, Hlr, Hgp. f_equal. f_equal.
       unfold vchain. destruct Hv as [Hv|Hv]; rewrite Hv; cbn [forwarded]; [reflexivity|].
-      unfold vchain. rewrite filter_memb_all. reflexivity. }
+      unfold vchain. rewrite filter_all_true; [reflexivity|].
+      intros x Hx. apply fwd_pred_memb. apply In_memb. apply in_or_app. left. exact Hx. }
     assert (Hin : In f all) by (rewrite Hall; apply in_or_app; right; left; reflexivity).
     assert (Estrip : strip a max_module_addr (fs_ra f) = fs_ra f).
     { unfold strip. destruct (a_strip a) eqn:Es; [|reflexivity].
